@@ -142,6 +142,7 @@ inductive Err
   | unsupportedType     -- "不支持的Go类型" / "不支持的值类型" / "无法转换类型"
   | cannotConvert       -- the script value does not offer the accessor, or the accessor failed
   | outOfRange          -- integer not representable in the requested type (narrowInt)
+  | missingArgument     -- a method call with fewer arguments than parameters is refused by the call site
   deriving DecidableEq, Repr, Inhabited
 
 inductive Panic
@@ -402,6 +403,20 @@ def call (pr : Prim) (tin : List InArm) (tout : List OutArm) (sig : Sig)
       | [] => ⟨some gs, .ok none⟩
       | r :: _ => ⟨some gs, (toScript pr tout r).map some⟩      -- only the first result is converted
     else ⟨none, .panic .callArgType⟩
+
+/-- how the registered code is reached: a function registered with `RegisterFunction`, or a
+method of a struct registered with `RegisterReflectClass` -/
+inductive Path
+  | fn | method
+  deriving DecidableEq, Repr, Inhabited
+
+/-- The call as a script makes it. A function call with too few arguments binds the missing
+parameters to null (`convArgs`); the object-method call site refuses it before `ReflectMethod.Call`
+runs ("缺少值和默认值", a catchable throw). -/
+def callVia (path : Path) (pr : Prim) (tin : List InArm) (tout : List OutArm) (sig : Sig)
+    (body : List GoVal → List GoVal) (args : List SVal) : Trace :=
+  if path == .method && args.length < sig.params.length then ⟨none, .throw .missingArgument⟩
+  else call pr tin tout sig body args
 
 /-! ### the generic converter `utils.Convert[S]` / `utils.ConvertFromIndex[S]` -/
 
